@@ -10,6 +10,7 @@ import (
 	"os"
 	"strconv"
 	"strings"
+	"unsafe"
 
 	secp "github.com/bytemare/secp256k1"
 	"github.com/bytemare/secp256k1/internal/field"
@@ -552,6 +553,22 @@ func execLine(h *hist, line string) (out string) {
 			return kv("panic", "expander-override-not-used")
 		}
 		return res
+	case "MEM.vet":
+		back := parseB(a[0])
+		off, _ := strconv.Atoi(a[1])
+		ln, _ := strconv.Atoi(a[2])
+		spare, _ := strconv.Atoi(a[3])
+		dst := back[off : off+ln : off+ln+spare]
+		out := secp.VerifVetDST(dst)
+		fresh := true
+		if len(out) > 0 && len(back) > 0 {
+			po := uintptr(unsafe.Pointer(&out[0]))
+			pb := uintptr(unsafe.Pointer(&back[0]))
+			if po >= pb && po < pb+uintptr(len(back)) {
+				fresh = false
+			}
+		}
+		return join(kv("b", showB(back)), kv("o", showB(out)), kv("fresh", b2s(fresh)))
 	case "RND":
 		// scripted entropy: a[0] = all bytes the source will deliver, a[1] = chunk size of each Read
 		data := parseB(a[0])
